@@ -361,6 +361,28 @@ fn exec_binary(op: &str, a: Sc, b: Sc, cache: &mut Cache, repeat: bool) -> Vec<F
         let (out, phase) = cache.call_api(&f, false, vec![b.var()]);
         runs.push(FormRun { form: "half_l", out, cell: None, program: format!("{f} called with ({})", b.show()), phase });
     }
+    // --- both operands are ONE name (x op x): identities such as x == x, x - x, x / x hold for some values only
+    if a == b {
+        let f = format!("(a: {t}) -> {r} {{ return a {op} a }}");
+        let (out, phase) = cache.call_api(&f, false, vec![a.var()]);
+        runs.push(FormRun { form: "same", out, cell: None, program: format!("{f} called with ({})", a.show()), phase });
+        if (op == "==" || op == "!=") && t != "bool" {
+            // ... also when the name's static type is a union or any
+            for wide in ["int|float", "float|string", "any"] {
+                if wide == "float|string" && t == "int" {
+                    continue;
+                }
+                let f = format!("(a: {wide}) -> bool {{ return a {op} a }}");
+                let (out, phase) = cache.call_api(&f, false, vec![a.var()]);
+                runs.push(FormRun { form: "same_wide", out, cell: None, program: format!("{f} called with ({})", a.show()), phase });
+            }
+            if let Some((la, _)) = &lits {
+                let program = format!("p := (v: {t}) -> int|float|string {{ return v }}; x := p({la}); x {op} x");
+                let (out, phase) = run_text(&program);
+                runs.push(FormRun { form: "same_wide", out, cell: None, program, phase });
+            }
+        }
+    }
     // --- compound assignment
     if has_assign_form(ty, op) {
         if let Some((la, lb)) = &lits {
